@@ -105,7 +105,13 @@ def run_exhaustive(ctx, sau, spec):
 
 def gen_random(rng):
     n = int(rng.integers(1, 41))
-    style = int(rng.integers(0, 4))
+    style = int(rng.integers(0, 5))
+    if style == 4:
+        # int64 nanosecond timestamps: values beyond 2**53, gaps and query offsets below the float64 spacing there
+        x = 1_700_000_000_000_000_000 + np.cumsum(rng.integers(1, 400, n)).astype(np.int64)
+        qs = np.sort(np.array([int(x[int(rng.integers(0, n))]) + int(rng.integers(-120, 121))
+                               for _ in range(int(rng.integers(1, 13)))], dtype=np.int64))
+        return x, qs
     if style == 0:
         x = np.cumsum(rng.lognormal(0, 1.5, n)) + rng.normal(0, 100)
     elif style == 1:
@@ -149,8 +155,8 @@ def run_random_case(ctx, sau, kind, idx):
     strategy, fill = COMBOS[int(rng.integers(0, 5))]
     via = bool(rng.integers(0, 2))
     cont = int(rng.integers(0, 3))
-    xx = x if cont != 1 else [float(v) for v in x]
-    qq = qs if cont != 2 else [float(v) for v in qs]
+    xx = x if cont != 1 else [v.item() for v in x]
+    qq = qs if cont != 2 else [v.item() for v in qs]
     case = ctx.case_id(kind, idx, strategy=strategy, fill=fill, dispatch=via)
     _one(ctx, sau, case, xx, qq, strategy, fill, via)
     if len(x) == 1 or np.any((qs > x[0]) & (qs < x[-1])):
